@@ -832,3 +832,17 @@ V("sz-first-node-is-result", ["C01"], SZ, "fire", ("ffcx/ir/analysis/graph.py", 
 V("sz-fixed-index-ignored", ["C01"], SZ, "fire", (IXF, "        if isinstance(i, FixedIndex):\n            p2[k] = int(i)", "        if isinstance(i, FixedIndex):\n            p2[k] = 0"))
 V("sz-benign-comprehension", ["C01"], SZ, "benign", (VNF, "        symbols = []\n        for row in v.ufl_operands:\n            symbols.extend(self.get_node_symbols(row))\n        return symbols",
                                                       "        return [s for row in v.ufl_operands for s in self.get_node_symbols(row)]"))
+
+# ---- whole kernel ------------------------------------------------------------------------------------------------------
+IGF = "ffcx/codegeneration/integral_generator.py"
+DFF = "ffcx/codegeneration/definitions.py"
+KN = ["GEN-KERNEL"]
+V("kn-piecewise-after-loops", ["C01"], KN, "fire", (IGF, "        parts += all_preparts\n        parts += all_quadparts\n", "        parts += all_quadparts\n        parts += all_preparts\n"))
+V("kn-loop-one-point-more", ["C08"], KN, "fire", (DFF, "        ranges = [quadrature_rule.weights.size]", "        ranges = [quadrature_rule.weights.size + 1]"))
+V("kn-weight-of-first-point", ["C01"], KN, "fire", (IGF, "                weights = self.backend.symbols.weights_table(quadrature_rule)\n                weight = weights[iq.global_index]", "                weights = self.backend.symbols.weights_table(quadrature_rule)\n                weight = weights[0]"))
+V("kn-all-rules-in-every-loop", ["C11"], KN, "fire", (IGF, "        for cell, rule in self.ir.expression.integrand.keys():\n            if domain == cell:\n                # Generate code to compute piecewise constant scalar factors\n                all_preparts += self.generate_piecewise_partition(rule, cell)",
+                                                    "        for cell, rule in self.ir.expression.integrand.keys():\n            if domain == cell:\n                # Generate code to compute piecewise constant scalar factors\n                all_preparts = self.generate_piecewise_partition(rule, cell)"))
+V("kn-tables-not-declared", ["C19"], KN, "fire", (IGF, "        for name in table_names:\n            table = tables[name]\n            parts += self.declare_table(name, table)", "        for name in table_names[1:]:\n            table = tables[name]\n            parts += self.declare_table(name, table)"))
+V("kn-assign-instead-of-add", ["C07"], KN, "fire", (IGF, "                body.append(L.AssignAdd(A[multi_index], expression))", "                body.append(L.Assign(A[multi_index], expression))"))
+V("kn-fw-cache-ignores-rule", ["C11"], KN, "fire", (IGF, "                key = (quadrature_rule, factor_index, blockdata.all_factors_piecewise)", "                key = (\"fw\",)"))
+V("kn-benign-rename", ["C01"], KN, "benign", (IGF, "        all_preparts = []\n        all_quadparts = []\n", "        all_preparts: list = []\n        all_quadparts: list = []\n"))
